@@ -176,8 +176,11 @@ func checkC01(p *Prog, r *Report) {
 	c01Builders(p, ib, r)
 	c01CallSites(p, ib, r)
 	// a timeout left running after its peer is gone answers (or swallows the answer of) a later write with the same counter
-	timersStoppedRule(p, BuildLockset(p, "spine", "model"), r, "R9")
+	lsC01 := BuildLockset(p, "spine", "model")
+	timersStoppedRule(p, lsC01, r, "R9")
 	approvalCleanupRule(p, r, "R10")
+	r.Rule("R11", "a write that waits for approval is answered once: whoever removes the pending entry and then answers (verdict or timeout) claims it — the comma-ok look-up and the delete share one critical section and every answer is sent only on the found edge (shared with C12-R2)")
+	claimRule(p, lsC01, ib, r, "R11")
 	r.Rule("R8", "the destination look-up decides 'exists' by equality of whole addresses: every hand-written element-wise comparison of two slices compares their lengths for equality (shared lint, C20-R6)")
 	sliceEqualityHelpers(p, r, "R8")
 	c01WhoMaySend(p, ib, r)
